@@ -55,8 +55,11 @@ class RunState:
     """Everything the injectors need to know about the current run."""
 
     def __init__(self, plan=None, delays=None, gates=None, gate_jobs=()):
-        # plan: {(job_name, phase): [kind, times]}
+        # plan: {(job_name, phase): [kind, times]} or, for kind "fail_sel" (fail-stop with PARTIAL data loss),
+        # [kind, times, [names of the jobs whose output instances - every copy of them - are lost at each failure]]
         self.remaining = {k: [v[0], int(v[1])] for k, v in (plan or {}).items()}
+        self.lose = {k: list(v[2]) for k, v in (plan or {}).items() if len(v) > 2}
+        self.produced = {}          # job -> paths of the output files its successful executions wrote (all generations)
         self.attempts = {}          # (job, phase) -> number of attempts started
         self.completed = {}         # job -> successful executions of the command
         self.injected = {}          # (job, phase) -> injected failures
@@ -186,6 +189,22 @@ def _failed(job_name):
         RUN.ser.fail(job_name)
 
 
+def _lose(context, jobs):
+    """Fail-stop with PARTIAL data loss: every output instance produced so far by the jobs in `jobs` is lost - the
+    file in the job's output directory and every copy the data manager relates to it (replicas on other deployments);
+    everything else (other jobs' outputs, the inputs staged in job input directories) survives."""
+    lost = []
+    for j in jobs:
+        for path in RUN.produced.get(j, ()):
+            paths = {path} | {dl.path for dl in context.data_manager.get_data_locations(path)}
+            for p in sorted(paths):
+                if os.path.lexists(p):
+                    os.unlink(p)
+                    lost.append(p)
+    RUN.wipes += 1
+    return lost
+
+
 def _wipe(deployment: str):
     """Fail-stop: the volatile storage of `deployment` loses everything (the directory itself stays)."""
     d = RUN.volatile[deployment]
@@ -217,6 +236,9 @@ async def _inject(context, job: Job, phase: str):
         dep = context.scheduler.get_allocation(job.name).target.deployment.name
         if kind == "fail_stop":
             _wipe(dep)
+        elif kind == "fail_sel":
+            lost = _lose(context, RUN.lose.get((job.name, phase), ()))
+            RUN.ev("lost", job=job.name, jobs=list(RUN.lose.get((job.name, phase), ())), files=len(lost))
         RUN.ev("fail", job=job.name, phase=phase, kind=kind, dep=dep)
         _failed(job.name)
         return kind
@@ -349,6 +371,7 @@ class RCommand(Command):
                         f.write("%s(%s)" % (name, ";".join(",".join(_read(p) for p in ps) for ps in paths.values())))
                     value = o
                 out = CommandOutput(value, Status.COMPLETED)
+                st.produced.setdefault(job.name, []).extend(value if isinstance(value, list) else [value] if isinstance(value, str) else [])
                 st.completed[job.name] = st.completed.get(job.name, 0) + 1
                 st.ev("exec_done", job=job.name, wf=self.step.workflow.persistent_id)
             except (WorkflowExecutionException, OSError) as err:
@@ -678,6 +701,15 @@ def prodcons(needs, name=None):
     nodes += [{"id": c, "type": "exec", "in": list(ps)} for c, ps in sorted(needs.items())]
     nodes.append({"id": "d", "type": "exec", "in": sorted(needs)})
     return {"name": name or "prodcons%dx%d" % (len(prods), len(needs)), "inputs": {"IN": 0}, "out": "d", "nodes": nodes}
+
+
+def dag(parents, name=None, out=None):
+    """General job DAG: `parents` maps an exec node id to the list of node ids it reads (in topological order of the keys;
+    [] = the workflow input).  Fork/join shapes with a UNIQUE topological order (a chain plus skip edges) are
+    deterministic without any imposed schedule: e.g. dag({"a": [], "b": ["a"], "c": ["b", "a"], "d": ["c", "b"]})."""
+    ids = list(parents)
+    nodes = [{"id": x, "type": "exec", "in": list(parents[x]) or ["IN"]} for x in ids]
+    return {"name": name or "dag%d" % len(ids), "inputs": {"IN": 0}, "out": out or ids[-1], "nodes": nodes}
 
 
 def shape_jobs(shape):
